@@ -85,8 +85,23 @@ def gen_type(rnd, name, used_ids, kind, derive=None, n_units=None, allow_ties=Tr
                 u['doc'] = '%s·%s' % (lit, ru['sym'])
             units.append(u)
     else:
-        for _ in range(n):
-            u = {'w': ident(rnd, used_ids), 'sym': symbol(rnd, syms), 'pfx': None, 'def': None}
+        names = [ident(rnd, used_ids) for _ in range(n)]
+        if n >= 2:
+            # identifiers that share a prefix, once continued with '_' and once in camel case: their NAMES
+            # ("Pre Zed" < "PreAlpha", space sorts first) and their variant identifiers ("PreAlpha" < "PreZed")
+            # sort differently; also an identifier starting with a lower-case word
+            pre = word(rnd)
+            a, b = pre + '_' + 'Z' + word(rnd, cap=False), pre + 'A' + word(rnd, cap=False)
+            if all(x.replace('_', '').lower() not in used_ids for x in (a, b)):
+                used_ids.update(x.replace('_', '').lower() for x in (a, b))
+                names[0], names[1] = a, b
+            if n >= 3:
+                lw = word(rnd, cap=False) + word(rnd)
+                if lw.lower() not in used_ids:
+                    used_ids.add(lw.lower())
+                    names[2] = lw
+        for w_ in names:
+            u = {'w': w_, 'sym': symbol(rnd, syms), 'pfx': None, 'def': None}
             if rnd.random() < 0.3:
                 u['doc'] = 'unit of ' + name
             units.append(u)
